@@ -52,6 +52,8 @@ class Harness(cm.BaseB):
                 for dt in (True, False, "generic"):
                     for mode in ("auto", "source", "destination", "Source", "", {"$none": 1}, "both", "AUTO"):
                         yield {"k": "opt", "src_trough": st, "dst_trough": dt, "mode": mode}
+                        if st == dt:
+                            yield {"k": "opt", "src_trough": st, "dst_trough": dt, "mode": mode, "same": True}
             return
         n, W = chunk["n"], chunk["wells"]
         pairs = list(itertools.product(W, W))
@@ -122,6 +124,8 @@ class Harness(cm.BaseB):
             return build_labware(trough(name, 4, 2, 0, 100, init) if t else plate(name, 4, 2, 0, 100, init))
 
         src, dst = mk("S", case["src_trough"], 50), mk("D", case["dst_trough"], 0)
+        if case.get("same"):
+            dst = src
         try:
             r = optimize_partition_by(src, dst, mode, "label")
         except Exception as e:
@@ -131,5 +135,7 @@ class Harness(cm.BaseB):
         if mode not in ("auto", "source", "destination"):
             return "opt:invalid:accepted", None, [("C18/invalid-mode-accepted", f"optimize_partition_by(mode={mode!r}) -> {r!r}")]
         want = mode if mode != "auto" else ("destination" if case["src_trough"] and not case["dst_trough"] else "source")
+        if case.get("same") and mode == "auto":
+            want = "source"
         V = [] if r == want else [("C18/automatic-choice", f"source trough={case['src_trough']} destination trough={case['dst_trough']} mode={mode}: {r!r}, expected {want!r}")]
         return f"opt:{r}", repr(case), V
